@@ -174,6 +174,17 @@ CHECKS["C18"] = (
     "DESIGN.md 4.3, 5 (C18)", _CONTENT_NOTE + " Timer firings of BufferedWriter are not scheduled (period=None).",
     "TLA+ logical-content spec as oracle across storage/front-end configurations")
 
+CHECKS["C10"] = (
+    "model_checking",
+    "PostingList / WeightList / CharList / VectorOf / term-statistics clauses of ContentCheck.tla: random token "
+    "streams (repeats, position gaps, terms of 1-40 letters incl. multi-byte, document boosts) indexed under "
+    "Existence/Frequency/Positions/Characters formats and vectors, with W3 block limits 1,2,3,4,128, compression "
+    "0/3/9, inlining, the in-memory and the plain-text codec; every list (ids, frequency, weight, positions, "
+    "character ranges), every term statistic and every vector is judged by TLC.",
+    "DESIGN.md 4.9, 5 (C10)", _CONTENT_NOTE + " Weights are dyadic so that float32 storage is exact; per-position "
+    "boosts (PositionBoosts/CharacterBoosts formats) are not generated.",
+    "TLA+ posting-list spec as oracle for postings/term statistics/vectors read from real segments")
+
 NOT_YET = {}
 
 
